@@ -116,4 +116,7 @@ MUTANTS = [
     F("C04", "EAFP END that catches the wrong lookup only", TP,
       "        if event.tid not in state or event.eventid not in state[event.tid]:\n            # Event end without start.\n            return\n\n        for eventid in state[event.tid]:\n            state[event.tid][eventid].append(event)\n\n        events = state[event.tid].pop(event.eventid)",
       "        try:\n            windows = state[event.tid]\n        except KeyError:\n            return None\n        for window in windows.values():\n            window.append(event)\n        events = windows.pop(event.eventid, [])", "K4"),
+    F("C04", "a decoder that runs off its end on one path", "trace_handlers/mach.py",
+      "            if vm_fault_real is not None:\n                pid = vm_fault_real.pid\n                caller_prot = vm_fault_real.caller_prot\n",
+      "            if vm_fault_real is None:\n                return None\n            pid = vm_fault_real.pid\n            caller_prot = vm_fault_real.caller_prot\n", "K11"),
 ]
